@@ -1,2 +1,220 @@
-(* C12 - placeholder while the correspondence is brought up; theorems follow. *)
-From PV Require Import C12.Model C12.Spec.
+(* C12 — Data-directory validation accepts exactly well-formed directories; fixes stick.
+   Property theorems only: each is closed by [exact <lemma>] and followed by [Print Assumptions].
+   Model.v = what /repo does (tied to it by harness/props/c12.py on every run);
+   Spec.v  = the docstrings' conditions, repairs and statistics.
+
+   Reading of the quantifier.  A directory is validated THROUGH a data set.  The theorems that say
+   "exactly the documented repairs" hold for every data set that yields (feat, ali, ref) triples
+   (suppress_alis = False, tokens_only = False: [plain_yield]) and either adds no sos/eos or is not
+   asked to fix ([clean_writes]).  What happens outside those hypotheses is stated too, as
+   [_refuted] witnesses (F9, F11, F12, F13, F14 of notes/C12_report.md) and a characterisation (F10). *)
+From Coq Require Import List ZArith Bool.
+From PV Require Import C12.Model C12.Spec C12.Proofs C12.Proofs2 C12.Proofs3.
+Import ListNotations.
+Local Open Scope Z_scope.
+
+(* ---- "passes validation if and only if it meets the documented conditions" ---- *)
+
+(* strict validation, any configured (non-negative) sos/eos *)
+Theorem c12_strict_accepts_iff_wellformed : forall c d,
+  plain_yield c -> syms_nonneg c -> tokens_nonneg d ->
+  (validate c FNone d = (d, None) <-> WellFormed d).
+Proof. exact strict_accepts_iff. Qed.
+Print Assumptions c12_strict_accepts_iff_wellformed.
+
+(* strict validation never writes, whatever the data set's options and whatever the outcome *)
+Theorem c12_strict_never_writes : forall c d, fst (validate c FNone d) = d.
+Proof. exact strict_never_writes. Qed.
+Print Assumptions c12_strict_never_writes.
+
+(* the boolean judge the harness applies to implementation outputs is the same predicate *)
+Theorem c12_wellformedb_iff : forall d, wellformedb d = true <-> WellFormed d.
+Proof. exact wellformedb_iff. Qed.
+Print Assumptions c12_wellformedb_iff.
+
+(* ---- "with a fix tolerance, exactly the documented small defects are repaired on disk ...
+        while any other defect still raises" ---- *)
+
+Theorem c12_fix_accepts_iff_repairable : forall c fa d,
+  plain_yield c -> clean_writes c (tolerance fa) -> syms_nonneg c -> tokens_nonneg d ->
+  ((exists d', validate c fa d = (d', None)) <-> WellFormed (repair (tolerance fa) d)).
+Proof. exact validate_accepts_iff. Qed.
+Print Assumptions c12_fix_accepts_iff_repairable.
+
+Theorem c12_fix_result_is_repair : forall c fa d d',
+  plain_yield c -> clean_writes c (tolerance fa) ->
+  validate c fa d = (d', None) -> d' = repair (tolerance fa) d /\ WellFormed d'.
+Proof. exact validate_result. Qed.
+Print Assumptions c12_fix_result_is_repair.
+
+(* "nothing else": a tensor that meets the conditions is the same after [repair] *)
+Theorem c12_repair_changes_only_defects : forall k F dt d2 u, utt_ok F dt d2 u -> repair_utt k u = u.
+Proof. exact repair_utt_ok. Qed.
+Print Assumptions c12_repair_changes_only_defects.
+
+Theorem c12_repair_fixes_valid_directory : forall fx d, WellFormed d -> repair fx d = d.
+Proof. exact repair_wf_id. Qed.
+Print Assumptions c12_repair_fixes_valid_directory.
+
+(* when validation raises, every stored tensor is either untouched or its documented repair *)
+Theorem c12_fix_error_partial : forall c fa d d' e,
+  plain_yield c -> clean_writes c (tolerance fa) ->
+  validate c fa d = (d', Some e) -> Forall2 (utt_partial (tolerance fa)) d d'.
+Proof. exact validate_error_partial. Qed.
+Print Assumptions c12_fix_error_partial.
+
+(* ---- "a second, strict validation then passes"; idempotence; histories ---- *)
+
+(* after an accepted validate/fix, every later validation of the same directory - strict or with any
+   tolerance - returns and leaves the files as they are *)
+Theorem c12_fix_then_strict_passes : forall c fa d d',
+  plain_yield c -> clean_writes c (tolerance fa) -> syms_nonneg c -> tokens_nonneg d ->
+  validate c fa d = (d', None) ->
+  forall fa', clean_writes c (tolerance fa') -> validate c fa' d' = (d', None).
+Proof. exact fix_then_strict. Qed.
+Print Assumptions c12_fix_then_strict_passes.
+
+(* a valid directory is never touched: any tolerance, any (non-negative) sos/eos on the data set *)
+Theorem c12_valid_never_touched : forall c fa d,
+  plain_yield c -> syms_nonneg c -> tokens_nonneg d -> WellFormed d -> validate c fa d = (d, None).
+Proof. exact valid_never_touched. Qed.
+Print Assumptions c12_valid_never_touched.
+
+(* ---- "tolerance k repairs exactly overshoots <= k" ---- *)
+
+Theorem c12_tolerance_exact_ali : forall c k T F dt v,
+  plain_yield c -> no_syms c ->
+  let d := [mkUtt (mkFeat false dt [T; F]) (Some (mkAli false DI64 (A1 v))) None] in
+  ((exists d', validate c (FInt k) d = (d', None))
+   <-> (length v = T \/ (Z.of_nat T < Z.of_nat (length v) <= Z.of_nat T + k)))
+  /\ (forall d', validate c (FInt k) d = (d', None) ->
+      d' = [mkUtt (mkFeat false dt [T; F]) (Some (mkAli false DI64 (A1 (firstn T v)))) None]).
+Proof. exact tolerance_exact_ali. Qed.
+Print Assumptions c12_tolerance_exact_ali.
+
+Theorem c12_tolerance_exact_ref : forall c k T F dt tok s e,
+  plain_yield c -> no_syms c -> 0 <= tok -> 0 <= s <= e ->
+  let d := [mkUtt (mkFeat false dt [T; F]) None (Some (mkRef false DI64 (R2 [(tok, s, e)])))] in
+  ((exists d', validate c (FInt k) d = (d', None))
+   <-> (e <= Z.of_nat T \/ (s <= Z.of_nat T /\ e <= Z.of_nat T + k)))
+  /\ (forall d', validate c (FInt k) d = (d', None) ->
+      d' = [mkUtt (mkFeat false dt [T; F]) None (Some (mkRef false DI64 (R2 [(tok, s, Z.min e (Z.of_nat T))])))]).
+Proof. exact tolerance_exact_ref. Qed.
+Print Assumptions c12_tolerance_exact_ref.
+
+(* ---- outside the hypotheses above: what the code does with other data-set options ---- *)
+
+(* F9 - fixing through a data set with sos/eos: the symbols are written to disk *)
+Theorem c12_fix_with_symbols_refuted :
+  exists c d d', plain_yield c /\ syms_nonneg c /\ tokens_nonneg d /\
+    validate c (FInt 1) d = (d', None) /\ d' <> repair (Some 1) d /\
+    (exists r lr, nth_error d' 0 = Some (mkUtt w_feat None (Some r)) /\ load_ref c r = inr lr /\
+                  r_data lr = R2 [(7, -1, -1); (7, -1, -1); (1, 0, 3)]).
+Proof. exact fix_with_symbols_refuted. Qed.
+Print Assumptions c12_fix_with_symbols_refuted.
+
+(* F10 - suppress_alis=True: every non-empty directory raises *)
+Theorem c12_suppress_alis_characterised : forall c fa u d,
+  c_suppress_alis c = true -> exists e, validate c fa (u :: d) = (u :: d, Some e).
+Proof. exact suppress_alis_rejects. Qed.
+Print Assumptions c12_suppress_alis_characterised.
+
+(* F11 - tokens_only=True: invalid boundaries pass and a fix overwrites the (R,3) file by its tokens *)
+Theorem c12_tokens_only_refuted :
+  exists c d d', c_tokens_only c = true /\ tokens_nonneg d /\
+    ~ WellFormed (repair (Some 0) d) /\
+    validate c (FInt 0) d = (d', None) /\
+    d' = [mkUtt w_feat None (Some (mkRef false DI64 (R1 [1])))].
+Proof. exact tokens_only_refuted. Qed.
+Print Assumptions c12_tokens_only_refuted.
+
+(* F12 - get-torch-spect-data-dir-info --fix 0 *)
+Theorem c12_cli_fix0_refuted :
+  exists d p, ~ WellFormed d /\ WellFormed (repair (Some 0) d) /\
+    cli_info false (Some 0) d = (d, inr p) /\
+    validate cfg_plain (FInt 0) d = (repair (Some 0) d, None).
+Proof. exact cli_fix0_refuted. Qed.
+Print Assumptions c12_cli_fix0_refuted.
+
+(* F13, F14 - two reported statistics that are not the recount *)
+Theorem c12_info_total_tokens_refuted :
+  exists d p, WellFormed d /\ cli_info true None d = (d, inr p) /\
+    p_total_tokens p = -1 /\ p_total_tokens (recount d) = 0.
+Proof. exact info_total_tokens_refuted. Qed.
+Print Assumptions c12_info_total_tokens_refuted.
+
+Theorem c12_info_rcount_refuted :
+  exists d p, WellFormed d /\ cli_info true None d = (d, inr p) /\
+    map fst (p_ref_tab p) = [-1; -1] /\ map fst (p_ref_tab (recount d)) = [-1; 2].
+Proof. exact info_rcount_refuted. Qed.
+Print Assumptions c12_info_rcount_refuted.
+
+(* ---- "reading a reference puts the configured start and end symbols around every transcript,
+        an empty one included" ---- *)
+
+Theorem c12_sos_eos_wrap_1d : forall c cu dt t, c_tokens_only c = false ->
+  load_ref c (mkRef cu dt (R1 t)) = inr (mkRef cu dt (R1 (wrap (c_sos c) (c_eos c) t))).
+Proof. exact load_ref_1d. Qed.
+Print Assumptions c12_sos_eos_wrap_1d.
+
+Theorem c12_sos_eos_wrap_2d : forall c cu dt rows, c_tokens_only c = false -> dt <> DU8 ->
+  load_ref c (mkRef cu dt (R2 rows))
+  = inr (mkRef cu dt (R2 (wrap (option_map sym_of (c_sos c)) (option_map sym_of (c_eos c)) rows))).
+Proof. exact load_ref_2d. Qed.
+Print Assumptions c12_sos_eos_wrap_2d.
+
+Theorem c12_sos_eos_wrap_tokens_only : forall c cu dt rows, c_tokens_only c = true ->
+  load_ref c (mkRef cu dt (R2 rows))
+  = inr (mkRef cu dt (R1 (wrap (c_sos c) (c_eos c) (map tok_of rows)))).
+Proof. exact load_ref_tokens_only. Qed.
+Print Assumptions c12_sos_eos_wrap_tokens_only.
+
+(* ---- "writing a hypothesis strips them again, so loading what was written returns the bare tokens" ---- *)
+
+Theorem c12_strip_wrap_roundtrip_1d : forall sos eos t,
+  free_of sos t -> free_of eos t -> (forall s e, sos = Some s -> eos = Some e -> s <> e) ->
+  write_hyp sos eos (R1 (wrap sos eos t)) = R1 t.
+Proof. exact roundtrip_1d. Qed.
+Print Assumptions c12_strip_wrap_roundtrip_1d.
+
+Theorem c12_strip_wrap_roundtrip_2d : forall sos eos rows,
+  free_of sos (map tok_of rows) -> free_of eos (map tok_of rows) ->
+  (forall s e, sos = Some s -> eos = Some e -> s <> e) ->
+  write_hyp sos eos (R2 (wrap (option_map sym_of sos) (option_map sym_of eos) rows)) = R2 rows.
+Proof. exact roundtrip_2d. Qed.
+Print Assumptions c12_strip_wrap_roundtrip_2d.
+
+(* the hypothesis sos <> eos is needed: with one symbol for both ends the stored hypothesis is empty *)
+Theorem c12_strip_wrap_same_symbol_refuted :
+  write_hyp (Some 5) (Some 5) (R1 (wrap (Some 5) (Some 5) [1; 2])) = R1 [].
+Proof. exact roundtrip_same_symbol_fails. Qed.
+Print Assumptions c12_strip_wrap_same_symbol_refuted.
+
+(* whatever is passed: what is stored is a contiguous piece of it and contains neither symbol *)
+Theorem c12_write_hyp_strips : forall (sos eos : option Z) (l : list Z),
+  (exists pre post, l = pre ++ strip_hyp (fun x => x) sos eos l ++ post) /\
+  (forall s, sos = Some s -> Forall (fun x => x <> s) (strip_hyp (fun x => x) sos eos l)) /\
+  (forall e, eos = Some e -> Forall (fun x => x <> e) (strip_hyp (fun x => x) sos eos l)).
+Proof.
+  exact (fun sos eos l => conj (strip_infix (fun x => x) sos eos l) (strip_free (fun x => x) sos eos l)).
+Qed.
+Print Assumptions c12_write_hyp_strips.
+
+(* ---- non-vacuity: a concrete directory with four kinds of defects is repaired by tolerance 1,
+        not by tolerance 0, and stays fixed ---- *)
+Example c12_nonvacuous :
+  let f := mkFeat false DF32 [3%nat; 2%nat] in
+  let d := [mkUtt f (Some (mkAli false DI32 (A1 [0; 0; 1; 1]))) (Some (mkRef false DI64 (R2 [(1, 0, 4); (2, -1, 3)])));
+            mkUtt f (Some (mkAli false DI64 (A1 [2; 2; 2]))) (Some (mkRef false DU8 (R2 [(0, 1, 1)])))] in
+  let d' := [mkUtt f (Some (mkAli false DI64 (A1 [0; 0; 1]))) (Some (mkRef false DI64 (R2 [(1, 0, 3); (2, -1, -1)])));
+             mkUtt f (Some (mkAli false DI64 (A1 [2; 2; 2]))) (Some (mkRef false DI64 (R2 [(0, 1, 1)])))] in
+  plain_yield cfg_plain /\ clean_writes cfg_plain (Some 1) /\ syms_nonneg cfg_plain /\ tokens_nonnegb d = true /\
+  wellformedb d = false /\ validate cfg_plain (FInt 1) d = (d', None) /\ d' = repair (Some 1) d /\
+  wellformedb d' = true /\ validate cfg_plain FNone d' = (d', None) /\
+  (exists d0, validate cfg_plain (FInt 0) d = (d0, Some ValueErr)) /\
+  validate cfg_plain FNone d = (d, Some ValueErr).
+Proof.
+  cbv zeta. repeat split; try reflexivity; try (intros s H; discriminate H).
+  - right. split; reflexivity.
+  - eexists. reflexivity.
+Qed.
